@@ -175,18 +175,20 @@ fn content_root_case(ctx: &Ctx, model: &mut Model, report: &mut Report, case: &V
   let err = out.stderr_s();
   report.case(Some(fnv_str(&case.to_string())));
   report.hit(&format!("paths:content-root:{}", match (&content, &base, &target) { (Some(_), _, _) => "content", (None, Some(_), _) => "base-directory", (None, None, Some(_)) => "beside-torrent", _ => "stdin-name" }));
+  // S, first the verdict: the one place the documented rule selects holds the listed bytes, every other candidate a
+  // decoy of the same length - so the verification succeeds if and only if the documented root is the one judged
+  if planted && out.code != Some(0) {
+    report.fail("property", "verify-content-root", case.clone(), format!("the selected root {want} holds the listed bytes (every other candidate a decoy), exit {:?}: {}", out.code, err.lines().last().unwrap_or("")));
+    return;
+  }
+  // then the announcement, when there is one in the form known here (its wording is not part of the property)
   let Some(shown) = shown_root(&err) else {
-    report.fail("property", "verify-content-root", case.clone(), format!("no content root announced; exit {:?}: {}", out.code, err.lines().last().unwrap_or("")));
+    report.hit("paths:content-root:not-announced-in-the-known-form");
     return;
   };
-  // S: the directory announced is the one the documented rule selects, and the verdict is about it
   let shown_abs = abs_norm(&abs(&shown));
   if shown_abs != want {
     report.fail("property", "verify-content-root", case.clone(), format!("judged `{shown}` (= {shown_abs}); the documented selection is {want}"));
-    return;
-  }
-  if planted && out.code != Some(0) {
-    report.fail("property", "verify-content-root", case.clone(), format!("the selected root {want} holds the listed bytes, exit {:?}: {}", out.code, err.lines().last().unwrap_or("")));
     return;
   }
   if content.is_some() && Some(&shown) != content.as_ref() {
